@@ -36,6 +36,7 @@ unsigned long g_obs_unit;          /* clock unit at that observation */
 _Bool g_clock_after_seen;          /* the latest clock read happened after the latest observation of the head */
 unsigned g_cas_ok, g_deletes, g_news; unsigned long g_swapped_out, g_deleted_head; _Bool g_dropped_expired_ok, g_kept_ok, g_link_ok, g_mine_ok, g_dropped;
 RL_t *g_rl;
+Node_t *g_dl; unsigned long g_dln, g_dl_del, g_dl_free; _Bool g_dl_ok;     /* delete_list job */
 #define UNIT(sec) ((sec) >> 6)
 unsigned long VF_P2I(void *p) { return p == (void *)g_node && p != 0 ? VF_NODE_ADDR : (p == 0 ? 0UL : (unsigned long)p & 0x0000FFFFFFFFFFFFUL); }
 void *VF_I2P(unsigned long x) { return x == VF_NODE_ADDR ? (void *)g_node : (void *)x; }
@@ -50,11 +51,13 @@ static void env_step(void) {
     if (NODEBITS(g_rl->_head) != 0 && UNIT(g_sec) >= g_head_full + 2) { g_rl->_head = nondet_bool() ? 0 : g_rl->_head; }
   }
 }
+static void vf_havoc_dl(void);
 static void vf_havoc_ghosts(void) {
   g_rl = malloc(sizeof(RL_t)); __CPROVER_assume(g_rl != 0);
   g_sec = nondet_u64(); __CPROVER_assume(g_sec < (1UL << 39));
   g_head_full = nondet_u64(); g_newest = nondet_u64(); g_me_full = 0; g_seen = 0; g_seen_head = 0; g_obs_unit = 0; g_clock_after_seen = 0;
   g_cas_ok = g_deletes = g_news = 0; g_swapped_out = 0; g_deleted_head = 0; g_dropped_expired_ok = 1; g_kept_ok = 1; g_link_ok = 1; g_mine_ok = 1; g_node = 0; g_dropped = 0;
+  vf_havoc_dl();
 }
 /* the list as this call finds it: (I) holds, the stamp abbreviates g_head_full, nothing is stamped in the future, and the stamps in
    play are not in the future (so a positive expire() answer is right whatever the 16-bit truncation did: d = ts - stamp mod 2^16 >= 2 and ts_full >= stamp_full give ts_full - stamp_full >= 2) */
@@ -93,10 +96,23 @@ _Bool vf_atomic_compare_exchange_strong_u64(unsigned long *p, unsigned long *e, 
 _Bool vf_atomic_compare_exchange_weak_u64(unsigned long *p, unsigned long *e, unsigned long d, int s, int f, int site) { return cas(p, e, d, s, 1); }
 /* delete_list frees every node of the list and hands its data to the deleter (its own loop is not under contract here) */
 void RL_delete_list(unsigned long head)
+#ifdef VF_ENFORCE_RL_delete_list
+__CPROVER_requires(g_dl_del == 0 && g_dl_free == 0 && g_dl_ok && NODEBITS(head) == (g_dln > 0 ? VF_NODE_ADDR : 0UL) && (g_dln == 0 || g_dl[0].next == (g_dln > 1 ? &g_dl[1] : (Node_t *)0)))
+__CPROVER_assigns(g_dl_del, g_dl_free, g_dl_ok, __CPROVER_object_whole(g_dl))
+__CPROVER_ensures(g_dl_ok && g_dl_del == g_dln && g_dl_free == g_dln)
+#else
 __CPROVER_requires(1)
 __CPROVER_assigns(g_deletes, g_deleted_head)
 __CPROVER_ensures(g_deletes == __CPROVER_old(g_deletes) + 1 && g_deleted_head == head)
+#endif
 ;
+#define DL_AT(p, k) (__CPROVER_same_object(p, g_dl) && __CPROVER_POINTER_OFFSET(p) % sizeof(Node_t) == 0 && __CPROVER_POINTER_OFFSET(p) / sizeof(Node_t) == (k))
+//@loop RL_delete_list 1
+//@  VF_REBASE(@l1:node@, g_dl)
+//@  __CPROVER_assigns(@l1:node@, g_dl_del, g_dl_free, g_dl_ok, __CPROVER_object_whole(g_dl))
+//@  __CPROVER_loop_invariant(g_dl_ok && g_dl_del == g_dl_free && g_dl_del <= g_dln && (g_dl_del < g_dln ? (DL_AT(@l1:node@, g_dl_del) && g_dl[g_dl_del].next == (g_dl_del + 1 < g_dln ? &g_dl[g_dl_del + 1] : (Node_t *)0)) : @l1:node@ == 0))
+//@  __CPROVER_decreases(g_dln - g_dl_del)
+//@end
 
 void RL_retire(RL_t *self, int *data)
 __CPROVER_requires(__CPROVER_pointer_equals(self, g_rl) && LIST_OK(g_rl) && g_cas_ok == 0 && g_deletes == 0 && g_news == 0)
@@ -120,4 +136,26 @@ __CPROVER_assigns(g_rl->_head, g_sec, g_head_full, g_newest, g_me_full, g_seen_h
 __CPROVER_ensures(g_dropped_expired_ok && g_cas_ok <= 1 && g_deletes == g_cas_ok)
 __CPROVER_ensures(g_cas_ok == 1 ==> g_deleted_head == g_swapped_out)
 ;
+
+/* delete_list(head): walks the list behind `head` and, for every node, hands its data to the deleter exactly once and frees the node
+ * exactly once, in list order (job C04.retire.delete_list, VF_DELETE_LIST).  The list is a typed node array of any length whose
+ * first node has the head's 48-bit address; node k links to node k+1: stated for node 0 in the precondition and for node k+1 when the
+ * deleter is invoked on node k (the code reads a node's link only after the deleter of its predecessor ran). */
+#ifdef VF_DELETE_LIST
+static void vf_havoc_dl(void) {
+  g_dln = nondet_u64(); __CPROVER_assume(g_dln < (1UL << 20)); g_dl = malloc((g_dln + 1) * sizeof(Node_t)); __CPROVER_assume(g_dl != 0);
+  g_dl_del = g_dl_free = 0; g_dl_ok = 1; g_node = g_dl;      /* (the address model maps VF_NODE_ADDR to the first node) */
+}
+void Del_op_call(struct Del *d, int *data) {
+  if (!(g_dl_del < g_dln && g_dl_del == g_dl_free && data == g_dl[g_dl_del].data)) g_dl_ok = 0;      /* the data of the next node, once, before that node is freed */
+  if (g_dl_del + 1 < g_dln) __CPROVER_assume(g_dl[g_dl_del + 1].next == (g_dl_del + 2 < g_dln ? &g_dl[g_dl_del + 2] : (Node_t *)0));   /* list shape */
+  g_dl_del++;
+}
+void vf_operator_delete(void *p, size_t n) {
+  if (!(g_dl_free < g_dl_del && p == (void *)&g_dl[g_dl_free])) g_dl_ok = 0;                           /* the node whose data was just handed over, once */
+  g_dl_free++;
+}
+#else
+static void vf_havoc_dl(void) { }
+#endif
 #endif
